@@ -158,6 +158,22 @@ class Stacker(Transformer):
             X = X.transpose(..., *order_input_dims)
         return X
 
+    def _restore_feature_order(self, X: DataVarBound) -> DataVarBound:
+        """Unstacking sorts the labels; restore the order of the fitted feature
+        coordinates so that the result can be handed to `transform` again."""
+        for dim in self.dims_mapping[self.feature_name]:
+            if dim in X.dims and dim in self.coords_in:
+                fitted_index = self.coords_in[dim].to_index()
+                index = X.indexes[dim]
+                if (
+                    not index.equals(fitted_index)
+                    and index.is_unique
+                    and fitted_index.is_unique
+                    and index.symmetric_difference(fitted_index).empty
+                ):
+                    X = X.reindex({dim: fitted_index})
+        return X
+
     def _stack(self, X: Data, sample_dims: Dims, feature_dims: Dims) -> DataArray:
         """Stack data to 2D.
 
@@ -395,9 +411,9 @@ class Stacker(Transformer):
         """
         match self.data_type:
             case "DataArray":
-                return self._unstack_to_dataarray(X)
+                return self._restore_feature_order(self._unstack_to_dataarray(X))
             case "Dataset":
-                return self._unstack_to_dataset_data(X)
+                return self._restore_feature_order(self._unstack_to_dataset_data(X))
             case _:
                 raise TypeError(f"Invalid data type {self._type_name(X)}.")
 
@@ -417,9 +433,11 @@ class Stacker(Transformer):
         """
         match self.data_type:
             case "DataArray":
-                return self._unstack_to_dataarray(X)
+                return self._restore_feature_order(self._unstack_to_dataarray(X))
             case "Dataset":
-                return self._unstack_to_dataset_components(X)
+                return self._restore_feature_order(
+                    self._unstack_to_dataset_components(X)
+                )
             case _:
                 raise TypeError(f"Invalid data type {self._type_name(X)}.")
 
